@@ -184,6 +184,28 @@ def history_obligation(col, it, umat, label, cls, x1, x2, ngrad=None):
         return okh and okg, "%s: %s at a state depends on an earlier evaluation at another state" % (method_where(cls, "hessian" if not okh else "gradient"), "hessian" if not okh else "gradient")
     col.check("C03.O1h", "%s evaluation history" % label, "gradient(x) and hessian(x) do not depend on evaluations made before at other states (gradient(y) then hessian(x), hessian(y) then gradient(x))", chk)
 
+    def chk_inplace():
+        # the way a solid body calls its material: the kinematic arrays are buffers that are overwritten in place from one evaluation to
+        # the next (extract(out=...)), so "another state" arrives in the *same* array objects an earlier call has seen
+        g2 = [None if a is None else npmodel.to_obj(np.asarray(a)).copy() for a in it.call_method(umat, "gradient", [list(x2)])[:ngrad]]
+        h2 = [None if a is None else npmodel.to_obj(np.asarray(a)).copy() for a in it.call_method(umat, "hessian", [list(x2)])]
+        buf = [npmodel.to_obj(np.asarray(a)).copy() for a in x1]
+        it.call_method(umat, "gradient", [list(buf)])
+        for b_, a_ in zip(buf, x2):
+            b_[...] = npmodel.to_obj(np.asarray(a_))
+        h2b = [None if a is None else npmodel.to_obj(np.asarray(a)).copy() for a in it.call_method(umat, "hessian", [list(buf)])]
+        for b_, a_ in zip(buf, x1):
+            b_[...] = npmodel.to_obj(np.asarray(a_))
+        it.call_method(umat, "hessian", [list(buf)])
+        for b_, a_ in zip(buf, x2):
+            b_[...] = npmodel.to_obj(np.asarray(a_))
+        g2b = [None if a is None else npmodel.to_obj(np.asarray(a)) for a in it.call_method(umat, "gradient", [list(buf)])[:ngrad]]
+        okh, okg = _same_lists(h2, h2b), _same_lists(g2, g2b)
+        return okh and okg, "%s: %s at a state that arrived by an in-place update of the argument arrays is that of the earlier state" % (
+            method_where(cls, "hessian" if not okh else "gradient"), "hessian" if not okh else "gradient")
+    col.check("C03.O1h", "%s evaluation history, argument arrays updated in place" % label,
+              "gradient(x) and hessian(x) are functions of the values in x: after gradient(x), an in-place update of the arrays in x and hessian(x) give the hessian of the new values (and vice versa)", chk_inplace)
+
 
 def hyper_obligations(col, it, umat, label, cls, has_function=True, out_variants=True, statevars=None, shape=None):
     F = Fsym() if shape is None else Fsym(shape[0], dim2=shape[1])
